@@ -66,6 +66,9 @@ def strategy():
         # what the time function returns: 0 floats (multiples of 1/8), 1 integers beyond 2**53 (nanosecond
         # clocks), 2 exact rationals - the deltas are the exact differences in each case
         'clock': st.integers(0, 2),
+        # foreign: the loop under test is not desper.default_loop (that one holds a bystander world), and every
+        # other world handle loads a World subclass whose instances are falsy
+        'foreign': st.integers(0, 3).map(lambda k: int(k == 3)),
         'faults': st.lists(worldops.packed(16 * 4 * 12 * 3).map(decode_fault), max_size=2),
         # scale: 0, or the number of iterations of the first start() (the clock readings are continued by
         # cycling through the generated gaps); faults are then enumerated at sampled iterations only
@@ -104,12 +107,19 @@ class QuitListener:
             self.run.viol('on_quit_got_arguments', args=repr(a))
 
 
+class EmptyLookingWorld(desper.World):
+    """a World subclass whose instances are falsy (think __len__ = number of living things)"""
+
+    def __bool__(self):
+        return False
+
+
 class WorldH(desper.Handle):
     def __init__(self, run, wix, nprocs):
         self.run, self.wix, self.nprocs = run, wix, nprocs
 
     def load(self):
-        w = desper.World()
+        w = EmptyLookingWorld() if (self.run.case.get('foreign') and self.wix % 2 == 0) else desper.World()
         # priorities distinct; added in scrambled order so that the order is the priority's doing
         order = list(range(self.nprocs))
         for pos in order[::-1]:
@@ -220,7 +230,9 @@ class Execution:
             desper.quit_loop(proc.world)
         if action == 'quit_loop_default':
             self.end_reason = 'quit'
-            self.expect_on_quit[self.cur] += 1
+            # no world given: on_quit goes to the current world of desper.default_loop (in "foreign" cases that is
+            # another loop with a bystander world)
+            self.expect_on_quit[99 if self.case.get('foreign') else self.cur] += 1
             desper.quit_loop()
         if action == 'error':
             self.end_reason = 'error'
@@ -239,9 +251,9 @@ class Execution:
             # that current world, with dt = 0 first
             self.arm_in = ('quit' if action.endswith('quits') else 'error', target)
             self.end_reason = 'quit' if action.endswith('quits') else 'error'
-            desper.switch(self.handles[target], from_world=proc.world if f[0] % 2 else None)
+            desper.switch(self.handles[target], from_world=proc.world if (f[0] % 2 or self.case.get('foreign')) else None)
         if action == 'switch':
-            desper.switch(self.handles[target], from_world=proc.world if f[0] % 2 else None)
+            desper.switch(self.handles[target], from_world=proc.world if (f[0] % 2 or self.case.get('foreign')) else None)
         raise desper.SwitchWorld(self.handles[target], clear_next=(action == 'raise_switch_clear_next'),
                                  clear_current=(action == 'raise_switch_clear_current'))
 
@@ -250,6 +262,17 @@ class Execution:
         self.loop = desper.SimpleLoop(self.clock)
         old_default = desper.default_loop
         desper.default_loop = self.loop
+        if case.get('foreign'):
+            # the loop under test is NOT desper.default_loop: that one belongs to somebody else and holds a
+            # bystander world - quit_loop(world) is about the given world, not about the default loop's
+            other = desper.SimpleLoop(lambda: 0)
+            bystander = desper.Handle()
+            bw = desper.World()
+            bw.create_entity(QuitListener(self, 99))
+            bystander.load = lambda: bw
+            other.switch(bystander)
+            desper.default_loop = other
+            self.flags['foreign_default_loop'] += 1
         try:
             self.handles = [WorldH(self, i, n) for i, n in enumerate(case['worlds'])]
             self.instances = {0: self.handles[0]()}
@@ -305,7 +328,7 @@ class Execution:
                 if self.loop.current_world is not self.instances[self.cur] or \
                         self.loop.current_world_handle is not self.handles[self.cur]:
                     self.viol('current_world_and_handle_unchanged_when_start_returns', expected_world=self.cur)
-                for w in range(len(self.handles)):
+                for w in list(range(len(self.handles))) + [99]:
                     if self.quit_calls[w] != self.expect_on_quit[w]:
                         self.viol('quit_loop_delivers_on_quit_exactly_once_before_start_returns', world=w,
                                   got=self.quit_calls[w], expected=self.expect_on_quit[w])
